@@ -353,7 +353,7 @@ struct Slot {
     atomic_count: u64,
     atomic_load_count: u64,
     clock_off: u64,
-    prio: u64,
+    prio: i64,
     yields_in_row: u32,
 }
 
@@ -625,7 +625,14 @@ impl Sim {
 
     /// choose who runs next; `me` may or may not be runnable.
     fn pick(&mut self, me: usize, kind: Pt) -> Option<usize> {
-        let opts = self.runnable(me);
+        let mut opts = self.runnable(me);
+        // at a yield the default choice (0: what an empty or shortened recorded schedule falls back to) is to hand
+        // over to the next runnable thread, not to stay: a thread that waits by yielding must not spin for ever
+        // in a minimised replay
+        let yielding_runnable = kind == Pt::Yield && opts.len() > 1 && opts[0] == me;
+        if yielding_runnable {
+            opts.rotate_left(1);
+        }
         if std::env::var_os("SIM_DEBUG_PICK").is_some() && self.pct_points.contains(&self.stats.steps) {
             let states: Vec<String> = (0..self.nthreads).map(|t| format!("{}:{:?}:{}", t, self.slots[t].state, self.slots[t].prio)).collect();
             let msg = format!("PICK step={} me={} kind={:?} opts={:?} states={:?}\n", self.stats.steps, me, kind, opts, states);
@@ -644,7 +651,7 @@ impl Sim {
             }
             return Some(opts[0]);
         }
-        let me_runnable = opts[0] == me;
+        let me_runnable = opts.contains(&me);
         let n = opts.len();
         let cfg_sched = self.cfg.sched.clone();
         let p_stay = self.cfg.p_stay;
@@ -654,18 +661,18 @@ impl Sim {
             if let Some(pos) = self.pct_points.iter().position(|p| *p == steps) {
                 self.pct_points.remove(pos);
                 // demote the running thread below everything else
-                let low = self.slots.iter().map(|s| s.prio).min().unwrap_or(0);
-                self.slots[me].prio = low.saturating_sub(1);
+                let low = self.slots[..self.nthreads].iter().map(|s| s.prio).min().unwrap_or(0);
+                self.slots[me].prio = low - 1;
             }
             if kind == Pt::Yield {
-                let low = self.slots.iter().map(|s| s.prio).min().unwrap_or(0);
-                self.slots[me].prio = low.saturating_sub(1);
+                let low = self.slots[..self.nthreads].iter().map(|s| s.prio).min().unwrap_or(0);
+                self.slots[me].prio = low - 1;
             }
         }
         if cfg_sched == SchedMode::PctSync && !self.dec.replay {
             if kind == Pt::Yield {
-                let low = self.slots.iter().map(|s| s.prio).min().unwrap_or(0);
-                self.slots[me].prio = low.saturating_sub(1);
+                let low = self.slots[..self.nthreads].iter().map(|s| s.prio).min().unwrap_or(0);
+                self.slots[me].prio = low - 1;
             } else if kind != Pt::Alloc && me_runnable && self.sync_demotions < self.cfg.pct_depth {
                 let q = 1.0 / (self.cfg.pct_horizon.max(2) as f64);
                 if self.dec.sched_rng.chance(q) {
@@ -674,12 +681,12 @@ impl Sim {
                         raw_write_fd(2, msg.as_bytes());
                     }
                     self.sync_demotions += 1;
-                    let low = self.slots.iter().map(|s| s.prio).min().unwrap_or(0);
-                    self.slots[me].prio = low.saturating_sub(1);
+                    let low = self.slots[..self.nthreads].iter().map(|s| s.prio).min().unwrap_or(0);
+                    self.slots[me].prio = low - 1;
                 }
             }
         }
-        let prios: Vec<u64> = opts.iter().map(|t| self.slots[*t].prio).collect();
+        let prios: Vec<i64> = opts.iter().map(|t| self.slots[*t].prio).collect();
         let yielding = kind == Pt::Yield;
         let wake_boost = self.just_woken && me_runnable;
         let c = self.dec.sched_choice(n, |rng| match cfg_sched {
@@ -689,8 +696,8 @@ impl Sim {
                 } else if me_runnable && !yielding && rng.chance(p_stay) {
                     0
                 } else if me_runnable && yielding {
-                    // a yield hands over to somebody else most of the time
-                    if rng.chance(0.1) { 0 } else { 1 + rng.below(n as u64 - 1) as usize }
+                    // a yield hands over to somebody else most of the time (the yielding thread is the last option)
+                    if rng.chance(0.1) { n - 1 } else { rng.below(n as u64 - 1) as usize }
                 } else {
                     rng.below(n as u64) as usize
                 }
@@ -708,7 +715,7 @@ impl Sim {
                 if me_runnable && !yielding {
                     0
                 } else if me_runnable {
-                    1 + rng.below(n as u64 - 1) as usize
+                    rng.below(n as u64 - 1) as usize
                 } else {
                     rng.below(n as u64) as usize
                 }
@@ -896,7 +903,7 @@ pub fn start(cfg: SimCfg, dec: Decider, fatal_fd: i32) {
     s.stats.sched_hash = 0xcbf29ce484222325;
     s.slots[0].state = TState::Runnable;
     s.slots[0].pthread = unsafe { libc::pthread_self() };
-    s.slots[0].prio = 1 << 40;
+    s.slots[0].prio = 1 << 41;
     s.stats.threads = 1;
     SIM.store(Box::into_raw(s), Ordering::Release);
     TID.with(|c| c.set(0));
@@ -1031,7 +1038,7 @@ pub fn register_thread() -> usize {
         s.live += 1;
         s.stats.threads += 1;
         s.slots[id].state = TState::Starting;
-        s.slots[id].prio = if s.dec.replay { 0 } else { (s.dec.sched_rng.next_u64() >> 24) + (1 << 20) };
+        s.slots[id].prio = if s.dec.replay { 0 } else { (s.dec.sched_rng.next_u64() >> 24) as i64 + (1 << 20) };
         id
     })
 }
@@ -1256,6 +1263,12 @@ pub unsafe fn hook_futex(addr: *const AtomicU32, op: i32, val: u32, timeout: *co
                     Some(ns.saturating_sub(MONO_BASE_NS))
                 }
             };
+            if std::env::var_os("SIM_DEBUG_BLOCK").is_some() {
+                let bt = std::backtrace::Backtrace::force_capture().to_string();
+                let short: Vec<&str> = bt.lines().filter(|l| l.contains("rayon") || l.contains("std::thread") || l.contains("sync") || l.contains("routee") || l.contains("compass_sim")).take(14).collect();
+                let msg = format!("BLOCK step={} t{} addr={:x}\n{}\n", s.stats.steps, me, addr as usize, short.join("\n"));
+                raw_write_fd(2, msg.as_bytes());
+            }
             s.block_seq += 1;
             let seq = s.block_seq;
             s.slots[me].state = TState::Blocked { addr: addr as usize, deadline, seq };
